@@ -28,10 +28,17 @@ RULE = ('C03\'s template-built example multisets and option space plus '
         'distinct by case hash.')
 RULE += ' ' + 'Also (shared generator): wide rows of 12-60 multi-class fields; examples that are another example plus a final line break; zero-count dictionary keys; punctuation runs sharing exactly one of two extra letters; use_sampling=False Sizes.'
 RULE += ' ' + 'Round 8: byte-string input form (UTF-8 with an encoding).'
+RULE += ' ' + 'Round 8: one case in forty supplies 150 examples through a check function that reports unmatched strings in a fixed order and at most as many as asked for, so that 40 strings of a second shape, all padded with white space, only turn up in a later pass (strip=True).'
 ASSUMPTIONS = ['"matches" is re.match on the anchored expression']
 
 
 def strategy(tier):
+    return st.integers(0, 399).flatmap(
+        lambda k: st.just({'fn_case': k}) if k <= 30 and k % 3 == 0
+        else usual_strategy(tier))
+
+
+def usual_strategy(tier):
     return st.fixed_dictionaries({
         'examples': st.one_of(G.examples_strategy(tier),
                               G.examples_strategy(tier),
@@ -47,7 +54,69 @@ def strategy(tier):
     }).map(c03.steer)
 
 
+def fn_case_examples(k):
+    """110 + k plain strings of one shape, then 40 strings of another shape
+    that all carry white space at their ends."""
+    plain = ['%s%02d' % ('abcdefghijkl'[i % 12] + 'mnopqrstuvw'[i % 11], i % 100)
+             for i in range(110 + k)]
+    plain = sorted(set(plain), key=plain.index)
+    letters = 'ABCDEFGH'
+    padded = [' %s%s-%d\t' % (letters[i % 8], letters[(i // 8) % 8], i % 10)
+              for i in range(40)]
+    return plain, sorted(set(padded), key=padded.index)
+
+
+def run_fn_case(case, ctx):
+    """The examples come from a check function that reports unmatched
+    strings in a fixed order, at most as many as asked for: the padded ones
+    only turn up in a later pass."""
+    from tdda.rexpy import rexpy
+    from tdda.rexpy.rexpy import Examples
+    out = Outcome()
+    plain, padded = fn_case_examples(case['fn_case'])
+    strings = plain + padded
+
+    def check(rexes, maxN=None):
+        freqs = [0] * len(rexes)
+        fails = []
+        pats = [re.compile(r, G.FLAGS) for r in rexes]
+        for u in strings:
+            for (i, p_) in enumerate(pats):
+                if re.fullmatch(p_, u) or re.fullmatch(p_, u.strip()):
+                    freqs[i] += 1
+                    break
+            else:
+                fails.append(u)
+        if maxN is not None:
+            fails = fails[:maxN]
+        return Examples(fails), freqs
+    out.label('check-function:padded-strings-in-a-later-pass')
+    out.nontrivial = True
+    for tag in (False, True):
+        ok, rexes = call(rexpy.extract, check, strip=True, tag=tag)
+        if not ok:
+            out.violate('never-raises', rexes.bucket(), rexes.detail())
+            continue
+        for r in rexes:
+            try:
+                cr = re.compile(r, G.FLAGS)
+            except re.error as e:
+                out.violate('compiles', 'invalid:function-input',
+                            '%s: %r' % (e, r))
+                continue
+            if not r.startswith('^') or not ends_with_unescaped_dollar(r):
+                out.violate('anchored', 'function-input', repr(r))
+            if not any(re.fullmatch(cr, x) for x in strings):
+                out.violate('matches-an-example', 'function-input:as-given',
+                            '%r (tag=%s) matches none of the %d examples as '
+                            'given, e.g. %r (all: %r)'
+                            % (r, tag, len(strings), strings[-1], rexes))
+    return out
+
+
 def valid(case):
+    if 'fn_case' in case:
+        return isinstance(case['fn_case'], int) and 0 <= case['fn_case'] <= 30
     if not isinstance(case.get('examples'), list):
         return False
     c = dict(case)
@@ -86,6 +155,8 @@ def extract_with(case, tag, rng_seed):
 
 
 def run(case, ctx):
+    if 'fn_case' in case:
+        return run_fn_case(case, ctx)
     out = Outcome()
     out.excluded = list(case.get('steered', []))
     o = case['opts']
